@@ -77,6 +77,7 @@ type Stats struct {
 	AssertUnsat    int            `json:"assert_unsat"`
 	AssertSat      int            `json:"assert_sat"`
 	AssertUnknown  int            `json:"assert_unknown"`
+	AssertFolded   int            `json:"assert_true_by_term_identity"`
 	Unsupported    map[string]int `json:"unsupported"`
 	UnwindExceeded int            `json:"unwind_exceeded"`
 	Steps          int64          `json:"ssa_instructions_executed"`
